@@ -165,6 +165,36 @@ class Piece:
         self.text = text
         return self
 
+    def D4(self):
+        """`tracing::warn!(..);` / info! / debug! / trace! / error! statements are removed: logging has no effect on the values under contract
+        (their arguments are Display/Debug renderings; an argument with side effects would be a different macro form and is not matched)."""
+        text = self.text
+        n = 0
+        while True:
+            code = scan(text)
+            m = None
+            for mm in re.finditer(r'\btracing::(?:warn|info|debug|trace|error)!\(', text):
+                if code[mm.start()]:
+                    m = mm
+                    break
+            if not m:
+                break
+            cl = match_close(text, code, m.end() - 1)
+            end = cl + 1
+            if text[end:end + 1] != ';':
+                raise LostAnchor('rule D4: logging macro used as an expression in %s' % self.label)
+            ls = _line_start(text, m.start())
+            if text[ls:m.start()].strip() == '':
+                e2 = text.find('\n', end)
+                text = text[:ls] + text[(e2 + 1 if e2 >= 0 else len(text)):]
+            else:
+                text = text[:m.start()] + text[end + 1:]
+            n += 1
+        if n:
+            self._fired('D4', '%d logging statement(s) dropped' % n)
+        self.text = text
+        return self
+
     def V1(self):
         out = []
         n = 0
@@ -819,9 +849,9 @@ class Piece:
         self.ops.append(('body_end', None, text))
         return self
 
-    def insert_inline(self, anchor, text, nth=0):
+    def insert_inline(self, anchor, text, nth=0, optional=False):
         """insert annotation text immediately after the nth code occurrence of anchor (e.g. a closure's `-> (r: T) ensures ..`)."""
-        self.ops.append(('inline', (anchor, nth, False), text))
+        self.ops.append(('inline', (anchor, nth, optional), text))
         return self
 
     def before_tail(self, text):
@@ -928,9 +958,17 @@ class Piece:
                     raise LostAnchor('loop #%d in %s is not a for loop' % (n, self.label))
                 add(in_pos, ' %s:' % lops['iter'])
             lt = ''
+            if lops.get('invariants_eb'):
+                lt += '\n    invariant_except_break\n'
+                for name, expr in lops['invariants_eb']:
+                    lt += '        /*@%s::inv#L%d.%s*/ %s,\n' % (self.full_label(), n, name, expr)
             if lops.get('invariants'):
                 lt += '\n    invariant\n'
                 for name, expr in lops['invariants']:
+                    lt += '        /*@%s::inv#L%d.%s*/ %s,\n' % (self.full_label(), n, name, expr)
+            if lops.get('ensures'):
+                lt += '\n    ensures\n'
+                for name, expr in lops['ensures']:
                     lt += '        /*@%s::inv#L%d.%s*/ %s,\n' % (self.full_label(), n, name, expr)
             if lops.get('decreases'):
                 lt += '\n    decreases /*@%s::termination#L%d*/ %s,\n' % (self.full_label(), n, lops['decreases'])
@@ -1053,6 +1091,15 @@ class LoopOps:
 
     def invariant(self, name, expr):
         self.d.setdefault('invariants', []).append((name, expr))
+        return self
+
+    def invariant_except_break(self, name, expr):
+        self.d.setdefault('invariants_eb', []).append((name, expr))
+        return self
+
+    def ensures(self, name, expr):
+        """what holds when the loop is left through `break` (Verus loop `ensures`)"""
+        self.d.setdefault('ensures', []).append((name, expr))
         return self
 
     def invariants(self, *pairs):
